@@ -382,7 +382,7 @@ PROPS["C04"] = dict(
     assumptions=[
         "producers never log into a handler object while it is being destroyed, and no thread runs during static destruction (both would be caller errors)",
         "exit paths (return from main, exit()) are exercised with the singleton, which is the object the library destroys at process exit",
-        "bounded time = backlog x delay + 25 s; a miss is re-run twice and only a scenario that never terminates is a violation",
+        "bounded time = backlog x delay + 25 s; a child counts as hung only when that bound passes AND its journal has not grown for 10 s; a scenario is a violation when it hangs twice in up to six runs (a deadlock that needs a particular interleaving does not hang every time); slow-but-progressing children are inconclusive",
         "with the one-line configuration deliveries are read from the log file after the process ended (exactly once each)",
     ],
     floors={"backlog_at_stop>=1": 0.3, "racing_producers": 0.1, "exit_without_exec": 0.03, "cycles": 0.2},
@@ -459,12 +459,12 @@ PROPS["C19"] = dict(
     "from install(logger A/B), foreign qInstallMessageHandler F1..F3, restore, probe, observed after every operation (installed handler read back, probe message receiver). Non-trivial (config) = at least two "
     "outputs configured and a message filtered out (ini) / a file and >= 2 messages (oneline); (history) >= 2 installs and a foreign handler on top at restore time or two cycles; distinct = canonical case summary.",
     assumptions=[
-        "stdout/stderr are pipes (colour 'auto' is off); a TTY is not emulated",
+        "stdout/stderr are pipes (colour 'auto' is off) or, in about a third of the INI cases, pseudo-terminals (colour 'auto' is on: the coloured outputs must wrap each line in the documented prefix/reset)",
         "restore after install -> foreign -> install may reinstate either the original or that foreign handler (property text and mechanism differ there, DESIGN.md C19); exact everywhere else",
         "rotate_daily is only exercised, not observed (no clock control in the child); deep rotation semantics are C05-C09's subject, here only the wiring of the keys is observed",
         "boolean spellings: true/false/1/0 (what QVariant::toBool accepts)",
     ],
-    floors={"mode_ini": 0.2, "mode_oneline": 0.08, "mode_history": 0.3, "history_two_installs": 0.15, "file_output": 0.2},
+    floors={"mode_ini": 0.2, "mode_oneline": 0.08, "mode_history": 0.15, "history_two_installs": 0.08, "file_output": 0.2, "coloured_console_line_expected": 0.03},
     technique="property-based testing (Hypothesis): generated configurations and message streams executed end to end in a child process and compared with outputs composed from independent oracles (glob rules, regexp predicates, pattern renderers); model-based testing of install/restore histories",
     level_text="Generated INI key sets / configure() arguments with message streams, executed end to end (5 000 quick / 40 000 thorough child processes), every output compared with the composed expectation; install/restore histories against a handler model after every operation. Not a proof; pattern/regexp/rule menus are small on purpose (their own semantics are C12/C15/C16).",
     level_note="Trusted: harness/runner_config.cpp, the oracles in py/hyp_c19.py (glob matcher, renderers, file reader).",
